@@ -273,9 +273,13 @@ std::size_t CDNS::CdnsEncoder::write(int64_t value)
 void CDNS::CdnsEncoder::flush_buffer()
 {
     if (m_p != m_buffer) {
-        m_cos->write(reinterpret_cast<const char*>(m_buffer), m_p - m_buffer);
+        std::size_t size = m_p - m_buffer;
+
+        // The buffer is emptied even if the output refuses the data (the exception reports the
+        // loss), otherwise no further call could ever get past the stale buffer
         m_p = m_buffer;
         m_avail = BUFFER_SIZE;
+        m_cos->write(reinterpret_cast<const char*>(m_buffer), size);
     }
 }
 
